@@ -188,6 +188,16 @@ def _run_bg(case):
         dv = dd.values if dd is not None else 0.0
         worst = max(worst, relmax(o, (rw.values - dv) / (bg.values - dv)))
     resid["pixelwise@shared_background"] = worst
+    # camera frames as the camera delivers them: integer counts (unsigned ones too), with pixels below the dark count
+    for dt in ("uint8", "uint16", "int16"):
+        hi = {"uint8": 255, "uint16": 65535, "int16": 32767}[dt]
+        ri = raw.copy(data=rng.integers(0, hi // 2, raw.shape).astype(dt))
+        bi = raw.copy(data=rng.integers(hi // 2, hi, raw.shape).astype(dt))
+        di = raw.copy(data=rng.integers(0, hi // 3, raw.shape).astype(dt))
+        oi = bg_correct(ri, bi, di)
+        ref = (ri.values.astype(float) - di.values.astype(float)) / (bi.values.astype(float) - di.values.astype(float))
+        worst_i = relmax(oi, ref)
+        resid["pixelwise@integer_frames"] = fnum(max(resid.get("pixelwise@integer_frames", 0.0), worst_i))
     # mismatched shapes are refused
     if raw.sizes["x"] > 2:
         from holopy.core.errors import BadImage
@@ -205,6 +215,8 @@ def _check_sub(im, center, shape):
     """returns (ok_values_coords, ok_shape)"""
     from holopy.core.process import subimage
     s = subimage(im, center, shape)
+    if len(center) == 3:
+        center = [center[im.dims.index("x")], center[im.dims.index("y")]]       # one entry per dimension of the image
     cx, cy = [int(v) for v in np.round(center)]
     sx, sy = (shape, shape) if np.isscalar(shape) else shape
     x0, x1 = int(np.round(cx - sx / 2)), int(np.round(cx + sx / 2))
@@ -231,11 +243,16 @@ def _run_sub_ex(case):
         for sy in range(2, ny + 1, 2):
             for cx in range(sx // 2, nx - sx // 2 + 1):
                 for cy in range(sy // 2, ny - sy // 2 + 1):
-                    shapes = [(sx, sy)] if case["layout"] == "xy" else []
+                    # the documented (int, int) size on every layout (images made by detector_grid / calc_holo / load_image have a
+                    # length-one z axis), and the centre also given with one entry per dimension of such an image
+                    shapes = [(sx, sy)]
                     if sx == sy:
                         shapes.append(sx)
                     for shp in shapes:
-                        okv, oks = _check_sub(im, (cx, cy), shp)
+                        ctr = (cx, cy)
+                        if im.ndim == 3 and (cx + cy + sx) % 3 == 0:
+                            ctr = tuple({"x": cx, "y": cy, "z": 0}[d] for d in im.dims)
+                        okv, oks = _check_sub(im, ctr, shp)
                         n += 1
                         if not okv or not oks:
                             bad_v += (not okv); bad_s += (not oks)
@@ -413,6 +430,15 @@ def _run_acc(case):
         wm = max(wm, float(np.abs(m - bm).max()) / scale)
         ws = max(ws, float(np.abs(s - bs).max()) / scale)
     flags = {"pushed_items_untouched": bool(digest(xs) == d_in)}
+    # a mean (or spread) that has been read is a result, not a view of the accumulator: later pushes leave it alone
+    if n >= 2:
+        acc = Accumulator()
+        for x in xs[:-1]:
+            acc.push(x)
+        m_early, s_early = acc.mean(), acc.std()
+        d_early = (digest(m_early), digest(s_early))
+        acc.push(xs[-1])
+        flags["mean_read_earlier_unchanged_by_later_push"] = bool((digest(m_early), digest(s_early)) == d_early)
     if what == "image":
         acc = Accumulator()
         for x in xs:
@@ -463,7 +489,7 @@ def _run_center(case):
 
 # ------------------------------------------------------------------ oracle
 
-TOL = {"mean_minus_1": 4e-15, "idempotent": 1e-14, "scale_invariant": 1e-14, "pixelwise": 1e-14, "pixelwise@shared_background": 1e-14,
+TOL = {"mean_minus_1": 4e-15, "idempotent": 1e-14, "scale_invariant": 1e-14, "pixelwise": 1e-14, "pixelwise@shared_background": 1e-14, "pixelwise@integer_frames": 1e-14,
        "neighbour_mean": 5e-14, "plane_removed": 1e-10, "pure_plane_to_zero": 1e-10, "acc_mean": 1e-12, "acc_std": 1e-12}
 
 
